@@ -115,11 +115,262 @@ def shape_vector_case(rng, name, st):
     return st
 
 
+# ---------------------------------------------------------------------------------------------------------
+# GRAPH.* cases.  Id protocol (coq/theories/Model/IGraph.v header): a case carries ABSOLUTE node ids; the ids
+# of the initial graphs lie above the harness process counter and below the world's next_node.  The process
+# counter only grows, so successive cases take increasing id ranges: `next_base` hands them out.
+import struct as _struct
+_BASE = [1]
+
+
+def next_base(span):
+    """reserves `span` ids; returns b such that the ids b+1 .. b+span belong to the caller"""
+    b = _BASE[0]
+    _BASE[0] = b + span
+    return b
+
+
+def _f(bits):
+    return _struct.unpack("<f", _struct.pack("<I", bits & 0xffffffff))[0]
+
+
+GSTATES = [0, 1, 1, 2, 2, 7, -1, 2147483647, -2147483648]
+GWEIGHTS_PLAIN = [fbits(x) for x in (0.5, 1.0, 1.5, 2.0, -3.25, 0.1, 10.0, 123.4565, 0.001)]
+
+
+def rand_weight(rng):
+    return rng.choice(GWEIGHTS_PLAIN) if rng.random() < 0.5 else rand_f32(rng)
+
+
+class PyGraph:
+    """the plain-data twin of pushr's Graph, enough to build cases and to predict result sizes"""
+    def __init__(self, nodes=None, edges=None):
+        self.nodes = dict(nodes or {})            # id -> state
+        self.edges = {d: list(l) for d, l in (edges or {}).items()}   # dest -> [(origin, weight bits)]
+
+    def clone(self):
+        return PyGraph(self.nodes, self.edges)
+
+    def wire(self):
+        return [[[k, self.nodes[k]] for k in sorted(self.nodes)],
+                [[d, [[o, w] for (o, w) in self.edges[d]]] for d in sorted(self.edges)]]
+
+    def add_edge(self, o, d, w):
+        if o in self.nodes and d in self.nodes:
+            l = self.edges.setdefault(d, [])
+            if all(x[0] != o for x in l): l.append((o, w))
+
+    def remove_node(self, k):
+        self.nodes.pop(k, None); self.edges.pop(k, None)
+        for l in self.edges.values():
+            for i, x in enumerate(l):
+                if x[0] == k:
+                    del l[i]; break
+
+    def sel(self, states, k):
+        return k in self.nodes and (not states or self.nodes[k] in states)
+
+    def filter_count(self, states):
+        return sum((1 if not states else sum(1 for x in states if x == st)) for st in self.nodes.values())
+
+    def succs_count(self, k, states):
+        return sum(1 for d, l in self.edges.items() if any(x[0] == k for x in l) and self.sel(states, d))
+
+
+def diff_loop_keys(old, new):
+    """number of HashMap keys that yield at least one line, per loop of Graph::diff (old.diff(new))"""
+    l1 = sum(1 for k in old.nodes if k not in new.nodes)
+    l2 = sum(1 for k in new.nodes if k not in old.nodes or old.nodes[k] != new.nodes[k])
+    l3 = sum(1 for d, l in old.edges.items() if any(d not in new.edges or all(y[0] != x[0] for y in new.edges[d]) for x in l))
+    l4 = 0
+    for d, l in new.edges.items():
+        hit = False
+        for x in l:
+            if d not in old.edges: hit = True
+            else:
+                m = [y for y in old.edges[d] if y[0] == x[0]]
+                if not m or not (_f(m[0][1]) == _f(x[1])): hit = True
+        l4 += hit
+    return l1, l2, l3, l4
+
+
+def rand_graphs(rng, tiny=False, nsnap=None):
+    """a GRAPH stack (oldest first) of PyGraphs with absolute ids, and the world's next_node"""
+    if nsnap is None:
+        nsnap = rng.choice([0, 1, 1, 2, 2, 2, 3, 3])
+    maxn = 1 if tiny else rng.choice([0, 1, 2, 3, 3, 4, 5])
+    ids = []
+    cur = [None]                     # running id, fixed up once the span is known
+
+    offs = []                        # ids are offsets first
+
+    def fresh():
+        o = (offs[-1] if offs else 0) + rng.choice([1, 1, 1, 2, 3])
+        offs.append(o)
+        return o
+    stack = []
+    g = PyGraph()
+    for _ in range(rng.randrange(0, maxn + 1)):
+        g.nodes[fresh()] = rng.choice(GSTATES)
+
+    def sprinkle(g, k):
+        ks = sorted(g.nodes)
+        for _ in range(k):
+            if ks:
+                g.add_edge(rng.choice(ks), rng.choice(ks), rand_weight(rng))
+    sprinkle(g, rng.randrange(0, 1 + 2 * len(g.nodes)))
+    for i in range(nsnap):
+        if i > 0:
+            g = g.clone() if rng.random() < 0.85 else PyGraph()
+            for _ in range(rng.randrange(0, 4)):
+                r = rng.random()
+                ks = sorted(g.nodes)
+                if r < 0.3 and len(g.nodes) < maxn + 1 and not (tiny and g.nodes):
+                    g.nodes[fresh()] = rng.choice(GSTATES)
+                elif r < 0.5 and ks:
+                    g.nodes[rng.choice(ks)] = rng.choice(GSTATES)
+                elif r < 0.7:
+                    sprinkle(g, 1)
+                elif r < 0.85 and g.edges:
+                    d = rng.choice(sorted(g.edges))
+                    if g.edges[d]:
+                        j = rng.randrange(len(g.edges[d]))
+                        g.edges[d][j] = (g.edges[d][j][0], rand_weight(rng))
+                elif ks and not tiny:
+                    g.remove_node(rng.choice(ks))
+        stack.append(g)
+    span = (offs[-1] if offs else 0) + rng.choice([1, 1, 2, 4])
+    base = next_base(span + 8)       # + room for the ids a few steps may issue
+    ren = lambda k: base + k
+    out = [PyGraph({ren(k): v for k, v in g.nodes.items()}, {ren(d): [(ren(o), w) for (o, w) in l] for d, l in g.edges.items()}) for g in stack]
+    return out, base + span
+
+
+def full_graph_stack(rng, n):
+    """n snapshots (99..101 wanted): small graphs, mostly clones"""
+    gs, nn = rand_graphs(rng, nsnap=3)
+    out = list(gs)
+    while len(out) < n:
+        out.append(out[-1].clone() if out and rng.random() < 0.7 else PyGraph())
+    return out[:n], nn
+
+
+def rand_node_id(rng, gs, next_node, top_only=0.6):
+    r = rng.random()
+    top = sorted(gs[-1].nodes) if gs else []
+    older = sorted(set(k for g in gs[:-1] for k in g.nodes) - set(top))
+    if r < top_only and top: return rng.choice(top)
+    if r < top_only + 0.12 and older: return rng.choice(older)                   # stale for the top graph
+    if r < top_only + 0.2: return next_node + rng.randrange(0, 3)                # never issued
+    if r < top_only + 0.3: return rng.choice([0, -1, -2, 2147483647, -2147483648, 1])
+    return rand_small_int(rng, 4)
+
+
+def rand_pos(rng, gs):
+    r = rng.random()
+    if r < 0.7: return rng.randrange(0, len(gs) + 1)
+    if r < 0.85: return rng.choice([-1, -2, len(gs) + 1, 100, 101])
+    return rng.choice(I32)
+
+
+def rand_filter(rng):
+    return [rng.choice(GSTATES) for _ in range(rng.choice([0, 0, 1, 1, 2, 3]))]
+
+
+HASH_ORDERED = {"GRAPH.NODES", "GRAPH.NODES*HISTORY", "GRAPH.NODE*SUCCESSORS", "GRAPH.NODE*NEIGHBORS", "GRAPH.PRINT", "GRAPH.PRINT*DIFF"}
+
+
+def hash_ordered_ok(name, st, gs):
+    """True when every HashMap-ordered part of the instruction's result has at most one element"""
+    top = gs[-1] if gs else None
+    if top is None: return True
+    ints, ivec = st["int"], st["ivec"]
+    if name == "GRAPH.NODES":
+        return not ivec or top.filter_count(ivec[0]) <= 1
+    if name == "GRAPH.NODES*HISTORY":
+        if not ints or ints[0] < 0 or ints[0] >= len(gs) or not ivec: return True
+        return gs[len(gs) - 1 - ints[0]].filter_count(ivec[0]) <= 1
+    if name in ("GRAPH.NODE*SUCCESSORS", "GRAPH.NODE*NEIGHBORS"):
+        if not ivec or not ints: return True
+        return top.succs_count(ints[0], ivec[0]) <= 1
+    if name == "GRAPH.PRINT":
+        return len(top.nodes) <= 1 and len(top.edges) <= 1
+    if name == "GRAPH.PRINT*DIFF":
+        if len(gs) < 2: return True
+        return all(x <= 1 for x in diff_loop_keys(gs[-2], top))
+    return True
+
+
+def shape_graph_case(rng, name, st, tiny=False):
+    """GRAPH stack + operands for one GRAPH.* instruction; returns (state dict, PyGraph stack, next_node)"""
+    if name in ("GRAPH.ADD", "GRAPH.DUP", "GRAPH.STACKDEPTH", "GRAPH.NODE*ADD") and rng.random() < 0.06:
+        gs, nn = full_graph_stack(rng, rng.choice([99, 100, 100]))
+    else:
+        gs, nn = rand_graphs(rng, tiny=tiny)
+    if name == "GRAPH.PRINT*DIFF" and len(gs) >= 2 and rng.random() < 0.15:
+        gs[-1] = gs[-2].clone()                                      # identical snapshots: nothing is pushed
+    st["graph"] = [g.wire() for g in gs]
+    nid = lambda **kw: rand_node_id(rng, gs, nn, **kw)
+    shaped = rng.random() < 0.9
+    if not shaped: return st, gs, nn
+    keep = lambda l: l[:rng.randrange(0, 3)]
+    w = rand_weight(rng)
+    if name == "GRAPH.NODE*ADD": st["int"] = [rng.choice(GSTATES)] + keep(st["int"])
+    elif name == "GRAPH.NODE*GETSTATE": st["int"] = [nid()] + keep(st["int"])
+    elif name == "GRAPH.NODE*HISTORY":
+        pos = rand_pos(rng, gs)
+        there = sorted(gs[len(gs) - 1 - pos].nodes) if 0 <= pos < len(gs) else []
+        st["int"] = [pos, rng.choice(there) if there and rng.random() < 0.6 else nid(top_only=0.3)] + keep(st["int"])
+    elif name == "GRAPH.NODE*SETSTATE": st["int"] = [rng.choice(GSTATES), nid()] + keep(st["int"])
+    elif name in ("GRAPH.NODE*NEIGHBORS", "GRAPH.NODE*PREDECESSORS", "GRAPH.NODE*SUCCESSORS"):
+        st["ivec"] = [rand_filter(rng)] + keep(st["ivec"]); st["int"] = [nid()] + keep(st["int"])
+    elif name == "GRAPH.NODE*STATESWITCH":
+        n = rng.randrange(0, 5)
+        st["ivec"] = [[nid() for _ in range(n)]] + keep(st["ivec"])
+        st["bvec"] = [[rng.random() < 0.5 for _ in range(rng.choice([n, n, rng.randrange(0, 5)]))]] + keep(st["bvec"])
+        st["int"] = [rng.choice(GSTATES), rng.choice(GSTATES)] + keep(st["int"])
+    elif name == "GRAPH.NODES": st["ivec"] = [rand_filter(rng)] + keep(st["ivec"])
+    elif name == "GRAPH.NODES*HISTORY":
+        st["int"] = [rand_pos(rng, gs)] + keep(st["int"]); st["ivec"] = [rand_filter(rng)] + keep(st["ivec"])
+    elif name in ("GRAPH.EDGE*ADD", "GRAPH.EDGE*SETWEIGHT", "GRAPH.EDGE*GETWEIGHT", "GRAPH.EDGE*HISTORY"):
+        pos = rand_pos(rng, gs) if name == "GRAPH.EDGE*HISTORY" else 0
+        at = gs[len(gs) - 1 - pos] if 0 <= pos < len(gs) else PyGraph()
+        pairs = [(x[0], d) for d, l in at.edges.items() for x in l]
+        ks = sorted(at.nodes)
+        r = rng.random()
+        if name == "GRAPH.EDGE*ADD" and ks and r < 0.55: o, d = rng.choice(ks), rng.choice(ks)
+        elif pairs and r < (0.7 if name != "GRAPH.EDGE*ADD" else 0.65): o, d = rng.choice(sorted(pairs))
+        else: o, d = nid(), nid()
+        st["int"] = ([pos] if name == "GRAPH.EDGE*HISTORY" else []) + [d, o] + keep(st["int"])
+        if name in ("GRAPH.EDGE*ADD", "GRAPH.EDGE*SETWEIGHT"): st["float"] = [w] + keep(st["float"])
+    # now and then an operand is missing
+    if rng.random() < 0.08:
+        k = rng.choice(["int", "ivec", "bvec", "float"])
+        st[k] = st[k][:rng.randrange(0, 2)]
+    return st, gs, nn
+
+
+def graph_case(rng, name, names, safe_names, profile=None, ordered=True):
+    """one single-step case for a GRAPH.* instruction.  ordered=True (suite `run`): HashMap-ordered results are
+    kept at <= 1 element; ordered=False (suite `graphq`): unrestricted."""
+    for attempt in range(40):
+        st = rand_state(rng, names, safe_names)
+        st, gs, nn = shape_graph_case(rng, name, st, tiny=(attempt >= 25))
+        if not ordered or name not in HASH_ORDERED or hash_ordered_ok(name, st, gs): break
+    else:
+        st["graph"] = []
+    st["exec"] = [I(name)] + st["exec"]
+    prof = rng.randrange(2) if profile is None else profile
+    return case_run(prof, state(**st), 0, 1, world=(nn, ()))
+
+
 import os
 SINE_NEGATIVE = os.environ.get("PUSHR_SINE_NEG", "1") == "1"    # negative FLOATVECTOR.SINE lengths (a hang on the code before fix C09-07)
 
 
 def step_case(rng, name, names, safe_names, profile=None):
+    if name.startswith("GRAPH."):
+        return graph_case(rng, name, names, safe_names, profile)
     st = rand_state(rng, names, safe_names)
     if name.split(".")[0] in VEC_KEY and "." in name:
         st = shape_vector_case(rng, name, st)
